@@ -19,7 +19,7 @@ LEVEL = "proof"
 RULE = ("thresholds: every sorted sub-list-with-repeats of {0,1/4,1/2,3/4,1} of length <= 4 (as list and as tensor), the integer "
         "counts {1,2,3,4,5,7}, invalid ones (unsorted, outside [0,1], empty); scores on the same grid (so they sit exactly on, "
         "below the first and above the last threshold) plus 1/8-offsets, -1/4 and 5/4 in the random part; all 0/1 label sets; "
-        "both optimisation modes; n <= 3 exhaustive for the binary forms (quick: n <= 2 + a sample of n = 3), random n up to 128; "
+        "both optimisation modes; n <= 3 exhaustive for the binary curve (quick: n <= 2 exhaustive + 60 inputs of size 3 per threshold list), random n up to 128; "
         "non-trivial = distinct (function, parameters, input) with at least one sample and one threshold")
 MODELLED = ["IEEE rounding of the final float32/float64 divisions and of the Riemann/trapezoid sums (compared with tolerance 2e-5 / 1e-9)",
             "torch.linspace float32 values are taken from torch and passed to the model as exact rationals"]
@@ -321,9 +321,7 @@ def binary_cases(rng: Rng, tier):
         inputs = [(xs, ys) for xs in itertools.product(G5, repeat=n) for ys in itertools.product([0, 1], repeat=n)]
         for thr in ALL_THR:
             if n == 3 and not full:
-                chosen = [rng.choice(inputs) for _ in range(12)]
-            elif n == 2 and not full:
-                chosen = [rng.choice(inputs) for _ in range(30)]
+                chosen = [rng.choice(inputs) for _ in range(60)]
             else:
                 chosen = inputs
             for xs, ys in chosen:
@@ -332,7 +330,7 @@ def binary_cases(rng: Rng, tier):
     # AUROC / AUPRC on the same space (sampled), thresholds starting at 0 favoured
     t0 = [t for t in ALL_THR if t[0] == 0.0]
     t01 = [t for t in t0 if t[-1] == 1.0]
-    reps = 6000 if full else 900
+    reps = 12000 if full else 3000
     for _ in range(reps):
         n = rng.choice([1, 2, 3, 3, 4, 5])
         xs, ys = rng.grid(n), labels01(rng, n)
@@ -348,7 +346,7 @@ def binary_cases(rng: Rng, tier):
             fn = rng.choice(["binary_binned_precision_recall_curve", "binary_binned_auroc", "binary_binned_auprc"])
             yield fn, {"input": ft(xs), "target": it(ys), "threshold": thr}, ("int", n)
     # random, larger, off-grid / out-of-range scores, multi-task, invalid thresholds, empty batches
-    reps = 2500 if full else 350
+    reps = 5000 if full else 1000
     for _ in range(reps):
         n = rng.choice([0, 1, 2, 5, 8, 17, 64, 128])
         fn = rng.choice(["binary_binned_precision_recall_curve", "binary_binned_auroc", "binary_binned_auprc"])
@@ -392,7 +390,7 @@ def multi_cases(rng: Rng, tier):
                 for opt in ("vectorized", "memory"):
                     yield "multilabel_binned_precision_recall_curve", {"input": ft(xs, shape=(n, 2)), "target": it(tg, shape=(n, 2)), "num_labels": 2,
                                                                        "threshold": thr, "optimization": opt}, ("exh-ml", n)
-    reps = 5000 if full else 700
+    reps = 12000 if full else 2500
     for _ in range(reps):
         n = rng.choice([1, 2, 3, 4, 9, 33, 128]) if rng.random() < 0.95 else 0
         S = rng.choice([2, 3, 4])
